@@ -63,6 +63,17 @@ class Duo:
             return "failed", pid
         return "refused", pid
 
+    def send_test_req(self, side):
+        """The endpoint's own keep-alive probe (TestRequest); the peer answers with a Heartbeat when it arrives."""
+        ep = self.ep[side]
+        if ep._socket_writer is None:
+            return "refused"
+        ep._test_req_id = None
+        r = self.w.call(ep.send_test_req())
+        if r[0] == "pending":
+            raise RuntimeError("send_test_req blocked")
+        return "ok" if r[0] == "ok" else "refused"
+
     def fifo(self, frm):
         return self.w.link.fifo[frm] if self.w.link is not None else ()
 
